@@ -152,7 +152,7 @@ pub proof fn lemma_db_inv_is_invariant(o: Backend, s: Backend, uri: Uri, text: S
 {}
 /// canary: "the state hypotheses are contradictory"
 pub proof fn canary_db_inv_contradictory(o: FixtureDatabase, t: Seq<char>)
-    requires db_inv(o), hash_collides_with_nothing(t),
+    requires db_inv(o), hash_collides_with_nothing(t), forall|f: PV| li_no_collision(o.line_index_cache.m(), f, t),
     ensures false,
 {}
 /// canary: "didClose establishes the state hypotheses from nothing"
